@@ -424,6 +424,10 @@ def run(rep):
     found = stage_oracle_quote(rep, rng, n // 2 * (10 if dis else 1))
     found += stage_oracle_make(rep, rng, (400 if thorough else 60) * (5 if dis else 1))
     found += stage_oracle_cmdword(rep)
+    from . import c06
+    for i in range(12 if thorough else 2):
+        found += c06.declared_vs_delivered(rep, rng, i, 'make', odd_names=(i % 2 == 1))
+    rep.stage('system:configure->make->recorder', projects=rep.traces)
     if dis and not found:
         i, call, iv, mv = dis[0]
         rep.fail('W:%s - model and implementation disagree (%d cases), e.g. %r: impl %r, model %r' % (
